@@ -13,7 +13,7 @@ import re
 
 from hypothesis import strategies as st
 
-from pbt.core import Violation, hyp_run, use_repo
+from pbt.core import Violation, fuzz_run, hyp_run, use_repo
 
 use_repo()
 from electrumx.lib.coins import BitcoinSV            # noqa: E402
@@ -652,16 +652,22 @@ def verify_body(ctx):
     return body
 
 
+# coverage-guided: the feature-dictionary grammar steered by libFuzzer's coverage of lib/peer.py
+FUZZ_TARGETS = {'c19.fuzz_features': {'kind': 'hyp', 'strategy': FEATURES, 'make': features_body,
+                                      'max_len': 4096}}
+
+
 def run(ctx):
     hyp_run(ctx, 'c19.population', POP_CASE, pop_body(ctx), ctx.pick(600, 20000), frac=0.4)
     hyp_run(ctx, 'c19.verify', VERIFY_CASE, verify_body(ctx), ctx.pick(400, 40000), frac=0.5)
-    hyp_run(ctx, 'c19.features', FEATURES, features_body(ctx), ctx.pick(2500, 80000))
+    hyp_run(ctx, 'c19.features', FEATURES, features_body(ctx), ctx.pick(2500, 80000), frac=0.7)
+    fuzz_run(ctx, 'c19.fuzz_features', ctx.pick(1500, 2000000))
 
 
 def replay(ctx, check, case):
     if check == 'c19.population':
         msg, sig, _ = run_population(case)
-    elif check == 'c19.features':
+    elif check in ('c19.features', 'c19.fuzz_features'):
         msg, sig, _ = check_features(case)
     elif check == 'c19.verify':
         msg, sig, _ = run_verify(case)
